@@ -226,7 +226,21 @@ int main(int argc, char** argv) {
       unsigned depth = A.u("in_depth", 24), comp = A.u("in_comp", 0);
       bool topdown = A.u("in_rev") & 1;
       uint32_t masks[4] = {(uint32_t)A.u("in_mr", 0xFF), (uint32_t)A.u("in_mg", 0xFF00), (uint32_t)A.u("in_mb", 0xFF0000), (uint32_t)A.u("in_ma", 0xFF000000)};
-      uint32_t hsize = A.has("in_hsize") ? A.u("in_hsize") : (comp == 3 ? 124 : 40);
+      bool given = A.has("in_hsize") || A.has("g_hsize");
+      uint32_t hsize = A.has("in_hsize") ? A.u("in_hsize") : A.has("g_hsize") ? A.u("g_hsize") : (comp == 3 ? 124 : 40);
+      if (given && (hsize < 40 || hsize > 124)) {
+        // not one of the info headers this parser lays its struct over (BITMAPINFOHEADER .. BITMAPV5HEADER): must be rejected, and safely
+        string file = bmp_file(w, h, depth, comp, topdown, masks, hsize);
+        TmpFile t(file);
+        try {
+          Image im(t.f);
+        } catch (const std::exception& e) {
+          printf("rejected: %s\nholds on this input\n", e.what());
+          return 0;
+        }
+        printf("POSTCONDITION VIOLATED on the real code: info header size %u was accepted\n", hsize);
+        return 1;
+      }
       if ((depth != 24 && depth != 32) || (comp != 0 && comp != 3)) { printf("variant outside the supported set\n"); return 2; }
       string file = bmp_file(w, h, depth, comp, topdown, masks, hsize);
       TmpFile t(file);
